@@ -26,6 +26,7 @@ var anchorPkgs = []string{
 
 // Program is the type-checked, SSA-built view of /repo's current working tree.
 type Program struct {
+	InlinedAccessors int
 	Dir   string
 	Fset  *token.FileSet
 	Pkgs  map[string]*packages.Package // by import path
@@ -95,6 +96,9 @@ func loadProgram(dir string, overlay map[string][]byte) (*Program, error) {
 		}
 		return p.Funcs[i].String() < p.Funcs[j].String()
 	})
+	// the SSA form is built from the program as written; the syntax-tree rules read named-set
+	// accessors as the map operations they perform (inline.go)
+	p.InlinedAccessors = inlineSetAccessors(p)
 	return p, nil
 }
 
